@@ -550,7 +550,6 @@ struct ExpSubject {
         e.observe(eo);
         std::uint64_t h = vf::mix(vf::mix(nh, vf::mix(h0, (std::uint64_t)(st + 1000))), vf::mix(op, vf::mix(vf::mix(a.v, a.y), vf::mix(a.q, a.f))));
         vf::cover(label(op), h, true);
-        if (vf::want_sample(label(op))) { vf::sample(label(op), "state=(%s %lld) v=%d other=%d (0-2 value, 3-5 error) qualifier=%d flag=%d", h0 ? "value" : "error", st, a.v, a.y, a.q, a.f); }
         if (!compare(eo, so)) { e.rebuild(mh(), mv()); }
     }
 };
